@@ -39,6 +39,9 @@ pub fn gen_resource_heavy(r: &mut Rng, allow_time: bool, small_constants: bool) 
 }
 
 pub fn int_tokens(text: &str) -> Vec<i128> {
+    // values, not spellings: `(+ 1791000000 200122)` and `#x6ac3d0ba` are integer constants too
+    let folded = crate::monitors::c03::fold_arith(text);
+    let text = folded.as_str();
     let b = text.as_bytes();
     let mut out = vec![];
     let mut i = 0;
